@@ -69,6 +69,7 @@ class Ctx:
         """
         if not events:
             return []
+        _check_ints(events)
         fd, path = tempfile.mkstemp(prefix="verif-trace-", suffix=".ndjson")
         try:
             with os.fdopen(fd, "w") as f:
@@ -201,6 +202,23 @@ class Ctx:
         return 1 if by_sig else 0
 
 
+def _check_ints(v):
+    """TLC integers are 32 bit and Json mangles larger values: refuse them."""
+    if isinstance(v, bool):
+        return
+    if isinstance(v, int):
+        if not -2 ** 31 < v < 2 ** 31:
+            raise Machinery("trace integer out of TLC range: %r" % v)
+    elif isinstance(v, float):
+        raise Machinery("float in trace event: %r" % v)
+    elif isinstance(v, dict):
+        for x in v.values():
+            _check_ints(x)
+    elif isinstance(v, (list, tuple)):
+        for x in v:
+            _check_ints(x)
+
+
 def _class_match(pat, cls):
     if pat is None or pat == "*":
         return True
@@ -227,6 +245,30 @@ def main(run_fn_by_pid, argv):
         fn = run_fn_by_pid(a.pid)
         level = fn(ctx, replay=a.replay) or "model_checking"
         return ctx.finish(level)
+    except Exception as e:
+        from . import par
+        lib_tb = None
+        if isinstance(e, par.LibraryRaised):
+            lib_tb, item = e.tb, e.item
+        elif not isinstance(e, (Machinery, tlc.TLCFailure)) and par.innermost_in_repo(sys.exc_info()[2]):
+            lib_tb, item = traceback.format_exc(), None
+        if lib_tb is None:
+            raise_again = e
+        else:
+            # the library raised on arguments the harness passes as in-domain
+            last = [ln for ln in lib_tb.strip().splitlines() if ln.strip()][-1]
+            where = [ln.strip() for ln in lib_tb.splitlines() if ln.strip().startswith("File ")][-1]
+            ctx.fail("library", "InDomainNoException", "exception", {"error": last, "where": where, "traceback": lib_tb[-3000:], "case": item})
+            return ctx.finish("model_checking")
+        try:
+            raise raise_again
+        except (Machinery, tlc.TLCFailure) as e2:
+            print("MACHINERY-FAILURE property=%s: %s" % (a.pid, e2), file=sys.stderr)
+            return 2
+        except Exception:
+            traceback.print_exc()
+            print("MACHINERY-FAILURE property=%s: unexpected exception" % a.pid, file=sys.stderr)
+            return 2
     except (Machinery, tlc.TLCFailure) as e:
         print("MACHINERY-FAILURE property=%s: %s" % (a.pid, e), file=sys.stderr)
         return 2
